@@ -4,6 +4,7 @@ import (
 	"fmt"
 	"go/token"
 	"go/types"
+	"strings"
 
 	"golang.org/x/tools/go/ssa"
 )
@@ -221,18 +222,37 @@ func r092(c *Ctx) {
 		}
 	}
 	c.ob(rule, "BeginHealthChecks/registers-consumer", bhc.Pos(), okReg, true, "")
-	lbb := c.method("LoadBalancer", "beginHealthChecks")
+	// the constructor registers the new balancer as the consumer of every one of its targets, on every path (the helper
+	// of the reference tree, beginHealthChecks, is de-anchored: always expanded into NewLoadBalancer)
+	nlb := c.fn("NewLoadBalancer")
 	okEach := false
-	for _, cs := range callsTo(lbb, bhc) {
-		if s, full := fullRangeElem(cs.common().Args[0]); full && isLoadOfField(s, allF) {
-			if mi, ok := cs.common().Args[1].(*ssa.MakeInterface); ok && mi.X == ssa.Value(lbb.Params[0]) {
+	var reg ssa.Instruction
+	for _, cs := range callsTo(nlb, bhc) {
+		s, full := fullRangeElem(cs.common().Args[0])
+		if !full {
+			continue
+		}
+		// the list ranged over is the new balancer's `all` (or the constructor's parameter it was initialised from)
+		listOK := isLoadOfField(s, allF) || resolve(s) == ssa.Value(nlb.Params[0])
+		if mi, ok := cs.common().Args[1].(*ssa.MakeInterface); ok && listOK {
+			if a, isAlloc := resolve(mi.X).(*ssa.Alloc); isAlloc && strings.HasSuffix(typeString(a.Type()), ".LoadBalancer") {
 				okEach = true
+				reg = cs.instr
 			}
 		}
 	}
-	c.ob(rule, "beginHealthChecks/every-target-reports-to-this-balancer", lbb.Pos(), okEach, true, "")
-	nlb := c.fn("NewLoadBalancer")
-	_, skipB := reach(nlb, nil, isReturn, func(in ssa.Instruction) bool { ci, ok := in.(*ssa.Call); return ok && isCallTo(ci.Common(), lbb) })
+	c.ob(rule, "beginHealthChecks/every-target-reports-to-this-balancer", nlb.Pos(), okEach, true, "")
+	skipB := true
+	if reg != nil {
+		// the registration loop is entered on every path to the return
+		hdr := loopNext(reg)
+		if hdr == nil {
+			// index-based range: the loop header is the block of the bound test dominating the call
+			_, skipB = reach(nlb, nil, isReturn, func(in ssa.Instruction) bool { return in.Block() == reg.Block().Idom() && in == in.Block().Instrs[0] })
+		} else {
+			_, skipB = reach(nlb, nil, isReturn, func(in ssa.Instruction) bool { return in == ssa.Instruction(hdr) })
+		}
+	}
 	c.ob(rule, "NewLoadBalancer/starts-health-checks", nlb.Pos(), !skipB, true, "")
 	// MarkAllHealthy refreshes after updating
 	mah := c.method("LoadBalancer", "MarkAllHealthy")
@@ -304,7 +324,7 @@ func r093(c *Ctx) {
 func r094(c *Ctx) {
 	const rule = "R09.4 empty-rotation-is-503"
 	c.floor(rule, 4)
-	nt := c.method("LoadBalancer", "nextTarget")
+	nt := c.method("LoadBalancer", "claimTarget") // (nextTarget is de-anchored: expanded into claimTarget)
 	healthyF := c.field("LoadBalancer", "healthy")
 	isLenHealthy := func(v ssa.Value) bool {
 		call, ok := v.(*ssa.Call)
@@ -338,15 +358,41 @@ func r094(c *Ctx) {
 	// empty => nil => ErrorNoHealthyTargets => 503
 	ct := c.method("LoadBalancer", "claimTarget")
 	noHealthy := c.global(c.server, "ErrorNoHealthyTargets")
-	okErr := false
-	for _, cs := range callsTo(ct, nt) {
-		tv := cs.instr.(*ssa.Call)
+	okErr, okEmpty := false, false
+	for _, cs := range callsTo(ct, c.method("Target", "StartRequest")) {
+		recv := cs.common().Args[0]
 		for _, ret := range normalReturns(ct) {
-			if isNil, _ := nilKnowledge(ret, sameAs(tv)); isNil && isLoadOfGlobal(lastRet(ret), noHealthy) {
+			if isNil, _ := nilKnowledge(ret, sameAs(recv)); isNil && isLoadOfGlobal(lastRet(ret), noHealthy) {
 				okErr = true
 			}
 		}
+		// (or the empty rotation is answered directly, without a nil target in between)
+		emptyKnown := func(conds []condEdge) bool {
+			for _, f := range intFactsOf(conds, isLenHealthy) {
+				if (f.op == token.EQL && f.k == 0) || (f.op == token.LEQ && f.k == 0) || (f.op == token.LSS && f.k == 1) {
+					return true
+				}
+			}
+			return false
+		}
+		for _, rc := range retCases(ct) {
+			if emptyKnown(rc.conds) && isLoadOfGlobal(rc.vals[len(rc.vals)-1], noHealthy) {
+				okErr, okEmpty = true, true
+			}
+		}
+		// ... and an empty rotation yields no target: the value is nil on the len(lb.healthy)==0 way
+		for _, vc := range valueCases(recv, cs.instr.Block()) {
+			if !isNilConst(vc.val) {
+				continue
+			}
+			for _, f := range intFactsOf(vc.conds, isLenHealthy) {
+				if (f.op == token.EQL && f.k == 0) || (f.op == token.LEQ && f.k == 0) || (f.op == token.LSS && f.k == 1) {
+					okEmpty = true
+				}
+			}
+		}
 	}
+	c.ob(rule, "claimTarget/empty-rotation=>no-target", ct.Pos(), okEmpty, true, "with no healthy target nothing may be claimed")
 	c.ob(rule, "claimTarget/no-target=>ErrorNoHealthyTargets", ct.Pos(), okErr, true, "")
 	serve := c.method("LoadBalancer", "ServeHTTP")
 	ok503 := false
@@ -460,7 +506,7 @@ func r096(c *Ctx, rule string) {
 func r097(c *Ctx) {
 	const rule = "R09.7 cursor-advances-one-healthy-position"
 	c.floor(rule, 2)
-	nt := c.method("LoadBalancer", "nextTarget")
+	nt := c.method("LoadBalancer", "claimTarget") // (nextTarget is de-anchored: expanded into claimTarget)
 	healthyF, indexF := c.field("LoadBalancer", "healthy"), c.field("LoadBalancer", "index")
 	isLenHealthy := func(v ssa.Value) bool {
 		call, ok := v.(*ssa.Call)
@@ -497,8 +543,11 @@ func r097(c *Ctx) {
 	c.ob(rule, "nextTarget/cursor = (cursor+1) mod len(healthy)", nt.Pos(), okAdv, true, "per claim the cursor must advance by one and wrap at the length of the HEALTHY list (wrapping at another length skews the split whenever some target is unhealthy)")
 	// the element returned is healthy[cursor] read after that store
 	okRet := false
-	for _, ret := range normalReturns(nt) {
-		v := retVal(ret, 0)
+	var claimed []ssa.Value
+	for _, cs := range callsTo(nt, c.method("Target", "StartRequest")) {
+		claimed = append(claimed, phiSources(cs.common().Args[0])...)
+	}
+	for _, v := range claimed {
 		if isNilConst(v) {
 			continue
 		}
